@@ -275,6 +275,12 @@ def stats(ctx, hs, impls):
             else:
                 dist["errors"] += 1
             dist["getters_changed"] += not r["unchanged"]
+        # does the environment ever offer a request that was placed by an earlier invocation? (hypothesis of C15_once)
+        done = set()
+        for r in im["steps"]:
+            dist["offers_of_already_placed_requests"] = dist.get("offers_of_already_placed_requests", 0) + len(done & set(r["offered"]))
+            if r["result"][0] == 0:
+                done |= {d[1] for d in r["result"][1] if d[0] == 4}
         dist["least_slack"] += h["goal"] == "least_slack"
         dist["multi_strategy_models"] += sum(len(m["strategies"]) > 1 for m in h["world"])
         if k in seen:
@@ -473,8 +479,8 @@ def run(ctx):
     built = ctx.build("C15", deps=["Model/Clockwork.v"])
     quick = ctx.tier == "quick"
     size = 4 if quick else 6
-    plan = [("natural", 240 if quick else 4000), ("tight", 100 if quick else 1500), ("ties", 80 if quick else 1000),
-            ("adversarial", 70 if quick else 1000), ("load", 50 if quick else 600), ("sim", 30 if quick else 600)]
+    plan = [("natural", 240 if quick else 2000), ("tight", 100 if quick else 800), ("ties", 80 if quick else 600),
+            ("adversarial", 70 if quick else 500), ("load", 50 if quick else 300), ("sim", 30 if quick else 200)]
     ctx.rules.append(RULE % size)
     dist_all = {}
     for mode, n in plan:
